@@ -631,6 +631,19 @@ func ruleIterNextFaithful(c *Check, rule string) {
 			}
 			n++
 			nx := callsOf(p, "snapshot.(*DBI).Next")
+			if len(nx) == 0 && (strings.HasPrefix(p.Rets[1], "errors.New@") || strings.HasPrefix(p.Rets[1], "fmt.Errorf@")) {
+				// a defensive refusal: the iterator has no DBI message to read from
+				refused := false
+				for _, cd := range p.Conds() {
+					if cd.Atom.Kind == "bool" && cd.Truth && strings.HasPrefix(cd.Atom.A, "isnil("+it+".") {
+						refused = true
+					}
+				}
+				if refused {
+					n--
+					continue
+				}
+			}
 			if len(nx) != 1 || !strings.HasPrefix(nx[0].Args[0], it+".") {
 				bad++
 				c.Bad(rule, name+"/one-entry-per-call", fmt.Sprintf("Next reads %d entries of the DBI message on this path, expected exactly one", len(nx)), c.pathPos(p), describe(c, p))
